@@ -63,18 +63,93 @@ Definition reach_unseen : sexpr -> ost -> list nat := lv false negb.
 Definition reach_seen : sexpr -> ost -> list nat := lv false (fun s => s).
 Definition running_leaves : sexpr -> ost -> list nat := lv true (fun _ => true).
 
-(* no operation state, or a completed one: nothing can happen to it any more *)
-Definition done_st (st : ost) : Prop :=
-  match st with OFin | OCompl _ _ | OLeaf true _ => True | _ => False end.
+(* no operation state, or a completed one: nothing can happen to it any more.  [stage 5] a completed allocate
+   keeps its node (it still owns its block): a node all of whose children are done *)
+Fixpoint done_st (st : ost) : Prop :=
+  match st with
+  | OFin | OCompl _ _ | OLeaf true _ => True
+  | ONode _ a b => done_st a /\ done_st b
+  | _ => False
+  end.
 Lemma inert_done st : inert st -> done_st st.
 Proof. destruct st; simpl; tauto. Qed.
-Lemma stop_done e st cx : done_st st -> stop e st cx = (st, [], None).
-Proof. destruct st as [|c s| | |]; simpl; try contradiction; [|destruct c; [|contradiction]|]; intros _; destruct e; reflexivity. Qed.
-Lemma leafev_done e st id o cx : done_st st -> leafev e st id o cx = ((st, [], None), false).
-Proof. destruct st as [|c s| | |]; simpl; try contradiction; [|destruct c; [|contradiction]|]; intros _; destruct e; reflexivity. Qed.
 
-Lemma lv_inert c p e st : done_st st -> lv c p e st = [].
-Proof. destruct st as [|cc s| | |]; simpl; try contradiction; [|destruct cc; [|contradiction]|]; intros _; destruct e; reflexivity. Qed.
+Lemma conc_reap_none k c sc tr : conc_reap k c (sc, tr, None) = (sc, tr, None).
+Proof. destruct k; reflexivity. Qed.
+
+Lemma stop_done e : forall st cx, done_st st -> exists st', stop e st cx = (st', [], None) /\ done_st st'.
+Proof.
+  induction e as [v|x| |n|id|id|id c|id lvl| |idc|k s IH|k a IHa b IHb]; intros st cx Hd;
+    try (exists st; split; [|exact Hd]; destruct st as [|cc ss| | |]; try reflexivity;
+         try (destruct cc; [reflexivity|contradiction Hd]); fail).
+  - destruct st as [|cc ss|ns sc sb|sa sb|vv]; try contradiction Hd;
+      try (eexists; split; [reflexivity|exact Hd]).
+    destruct Hd as [Hc Hb]. destruct (is_unst k) eqn:Hk.
+    + apply is_unst_true in Hk. subst k. rewrite stop_un_unst. eexists. split; [reflexivity|]. split; assumption.
+    + rewrite stop_un by exact Hk. unfold stop_un_body.
+      destruct (un_own k && own_stop ns)%bool; [eexists; split; [reflexivity|]; split; [assumption|exact I]|].
+      destruct (IH sc cx Hc) as (sc' & E & Hd'). rewrite E. eexists. split; [reflexivity|]. split; [assumption|exact I].
+  - destruct st as [|cc ss|ns sa sb|sa0 sb0|vv]; try contradiction Hd;
+      try (eexists; split; [reflexivity|exact Hd]).
+    destruct Hd as [Ha Hb]. rewrite stop_bin.
+    destruct (IHa sa cx Ha) as (sa' & Ea & Ha'). destruct (IHb sb cx Hb) as (sb' & Eb & Hb').
+    destruct (is_seq k).
+    + destruct (ph ns).
+      * unfold stop_seq1. rewrite Ea. eexists. split; [reflexivity|]. split; assumption.
+      * unfold stop_seq2. rewrite Eb. eexists. split; [reflexivity|]. split; assumption.
+      * unfold stop_seq2. rewrite Eb. eexists. split; [reflexivity|]. split; assumption.
+    + destruct (own_stop ns); [eexists; split; [reflexivity|]; split; assumption|].
+      unfold stop_conc. cbv zeta. rewrite Ea, Eb.
+      change (bdone (ns_set_own (stopped_ns ns) true)) with (bdone ns).
+      change (adone (ns_set_own (stopped_ns ns) true)) with (adone ns).
+      rewrite !conc_reap_none.
+      destruct (bdone ns); simpl; change (adone (ns_set_own (stopped_ns ns) true)) with (adone ns);
+        destruct (adone ns); simpl;
+        eexists; (split; [reflexivity|]); split; assumption.
+Qed.
+
+Lemma fired_nil lvl : fired lvl [] = false.
+Proof. reflexivity. Qed.
+
+Lemma leafev_done e : forall st id o cx, done_st st ->
+  exists st', leafev e st id o cx = ((st', [], None), false) /\ done_st st'.
+Proof.
+  induction e as [v|x| |n|i|i|i c|i lvl| |idc|k s IH|k a IHa b IHb]; intros st id o cx Hd;
+    try (exists st; split; [|exact Hd]; destruct st as [|cc ss| | |]; try reflexivity; try contradiction Hd;
+         try (destruct cc; [reflexivity|contradiction Hd]); fail).
+  - destruct st as [|cc ss|ns sc sb|sa sb|vv]; try contradiction Hd;
+      try (eexists; split; [reflexivity|exact Hd]).
+    destruct Hd as [Hc Hb]. rewrite leafev_un. unfold leafev_un_body, child_ev.
+    destruct (IH sc id (un_in k o) cx Hc) as (sc' & E & Hd'). rewrite E. cbn [thrown].
+    rewrite fired_nil, andb_false_r. eexists. split; [reflexivity|]. split; [assumption|exact I].
+  - destruct st as [|cc ss|ns sa sb|sa0 sb0|vv]; try contradiction Hd;
+      try (eexists; split; [reflexivity|exact Hd]).
+    destruct Hd as [Ha Hb]. destruct (is_seq k) eqn:Hk.
+    + rewrite leafev_bin_seq by exact Hk. destruct (ph ns).
+      * unfold leafev_seq1, child_ev.
+        destruct (IHa sa id (bin_in k false o) cx Ha) as (sa' & E & Hd'). rewrite E. cbn [thrown].
+        eexists. split; [reflexivity|]. split; assumption.
+      * unfold leafev_seq2, child_ev.
+        destruct (IHb sb id (bin_in k true o) cx Hb) as (sb' & E & Hd'). rewrite E. cbn [thrown].
+        eexists. split; [reflexivity|]. split; assumption.
+      * unfold leafev_seq2, child_ev.
+        destruct (IHb sb id (bin_in k true o) cx Hb) as (sb' & E & Hd'). rewrite E. cbn [thrown].
+        eexists. split; [reflexivity|]. split; assumption.
+    + rewrite leafev_bin_conc by exact Hk. unfold leafev_conc, child_ev, reap_ev.
+      destruct (IHa sa id (tmode o) cx Ha) as (sa' & Ea & Ha'). rewrite Ea. cbn [thrown fst snd].
+      destruct (IHb sb id (tmode o) cx Hb) as (sb' & Eb & Hb'). rewrite Eb. cbn [fst snd].
+      rewrite !conc_reap_none.
+      destruct (adone ns), (bdone ns); simpl;
+        eexists; (split; [reflexivity|]); split; assumption.
+Qed.
+
+Lemma lv_inert c p e : forall st, done_st st -> lv c p e st = [].
+Proof.
+  induction e; intros st Hd; destruct st as [|cc ss|ns sa sb|sa0 sb0|vv]; simpl in *; try contradiction;
+    try reflexivity; try (destruct cc; [reflexivity|contradiction]).
+  - destruct Hd as [Hc _]. rewrite (IHe _ Hc). destruct (is_unst k && negb c)%bool; reflexivity.
+  - destruct Hd as [Ha Hb]. rewrite (IHe1 _ Ha), (IHe2 _ Hb). destruct (is_seq k); [destruct (ph ns)|]; reflexivity.
+Qed.
 Lemma lv_fin c p e : lv c p e OFin = [].
 Proof. apply lv_inert. exact I. Qed.
 Lemma lv_un c p k s ns sc sb :
@@ -150,10 +225,14 @@ Fixpoint live (tok : bool) (e : sexpr) (st : ost) {struct e} : Prop :=
   | _, _ => False
   end.
 
-Lemma live_not_done tok e st : live tok e st -> done_st st -> False.
+Lemma live_not_done e : forall tok st, live tok e st -> done_st st -> False.
 Proof.
-  destruct st as [|c s| | |]; simpl; try tauto; try (destruct e; exact (fun H _ => H)).
-  destruct c; [|tauto]. destruct e; simpl; try tauto; intros [E _]; discriminate.
+  induction e; intros tok st HL Hd; destruct st as [|cc ss|ns sa sb|sa0 sb0|vv]; simpl in *; try contradiction;
+    try (destruct HL as [-> _]; contradiction).
+  - destruct HL as (_ & _ & HL). destruct Hd as [Hd _]. exact (IHe _ _ HL Hd).
+  - destruct HL as [_ HL]. destruct Hd as [Ha Hb]. destruct (is_seq k).
+    + destruct (ph ns); eauto.
+    + destruct HL as (_ & La & Lb & Hn). destruct (adone ns); [destruct (bdone ns); [discriminate|]|]; eauto.
 Qed.
 Lemma live_un tok k s ns sc sb :
   live tok (Un k s) (ONode ns sc sb) =
@@ -343,15 +422,25 @@ Qed.
 
 Lemma un_fin_l tok k s ns sc tr o sc0 tr0 rr0 st tr' r :
   (forall l, k = URepeat l -> e_stopped (n_env ns) = tok /\ resL tok s sc0 rr0 /\ trs (Un k s) tok tr0) ->
+  done_st sc ->
   trs (Un k s) tok tr ->
   un_fin k s ns sc tr o (sc0, tr0, rr0) = (st, tr', r) ->
   resL tok (Un k s) st r /\ trs (Un k s) tok tr' /\ incl tr tr'.
 Proof.
-  intros Hr Ht H. unfold un_fin in H.
+  intros Hr Hdc Ht H. unfold un_fin in H.
   destruct k; try (eapply un_done_l; eassumption).
-  destruct (Hr l eq_refl) as (He & R0 & Ht0).
-  eapply rep_done_l; [exact He|exact R0|exact Ht|exact Ht0|exact H].
+  - destruct (Hr l eq_refl) as (He & R0 & Ht0).
+    eapply rep_done_l; [exact He|exact R0|exact Ht|exact Ht0|exact H].
+  - inv H. split; [apply resL_some; simpl; auto|]. split; [assumption|apply incl_refl].
 Qed.
+
+(* [stage 5] the events of a throwing connect are block events: nothing is started *)
+Lemma trs_aev e e' al tok tr : Forall (aev e al) tr -> trs e' tok tr.
+Proof. intros H. apply trs_nostart. eapply Forall_impl; [|exact H]. intros t. destruct t; simpl; tauto. Qed.
+Lemma trs_sconn e e' al tok : trs e' tok (sconn e al).
+Proof. eapply trs_aev. apply sconn_aev. Qed.
+Lemma trs_un_pre e' tok k en : trs e' tok (un_pre k en).
+Proof. apply trs_nostart. destruct k; repeat constructor. Qed.
 
 (* ---- sequential nodes ----------------------------------------------------------------------------- *)
 Lemma seq_pass_l tok k a b sa tr o st tr' r :
@@ -858,7 +947,7 @@ Qed.
 
 Lemma all_l e : StartL e /\ StopL e /\ LeafevL e.
 Proof.
-  induction e as [v|x| |n|i|i|i c|i lvl| |k s IH|k a IHa b IHb].
+  induction e as [v|x| |n|i|i|i c|i lvl| |idc|k s IH|k a IHa b IHb].
   - split; [|split].
     + intros en cx st tr r H. simpl in H. inv H. auto with calc2.
     + intros tok cx st st' tr r H HL. destruct st; contradiction HL.
@@ -934,18 +1023,26 @@ Proof.
     + intros en cx st tr r H. simpl in H. inv H. auto with calc2.
     + intros tok cx st st' tr r H HL. destruct st; contradiction HL.
     + intros tok cx st id o st' tr r hit H HL. destruct st; contradiction HL.
+  - (* LeafC *)
+    split; [|split].
+    + intros en cx st tr r H. simpl in H. inv H. split; [apply resL_fin|apply trs_nil].
+    + intros tok cx st st' tr r H HL. destruct st; contradiction HL.
+    + intros tok cx st id o st' tr r hit H HL. destruct st; contradiction HL.
   - (* Un *)
     destruct IH as (Ss & Ps & Ls). split; [|split].
     + intros en cx st tr r H. rewrite start_un in H.
+      destruct (sthrows (Un k s));
+        [unfold start_thrown in H; injection H as <- <- <-; split; [apply resL_fin|exact (trs_sconn (Un k s) _ _ _)]|].
       destruct (start s (un_env k en) cx) as [[sc tr1] r1] eqn:Hs.
       destruct (Ss _ _ _ _ _ Hs) as [R1 T1]. rewrite un_env_tok in R1, T1.
       assert (T' : trs (Un k s) (e_stopped en) tr1).
       { eapply trs_un_gen; [|exact T1]. apply un_nst_own. }
+      assert (Tp : trs (Un k s) (e_stopped en) (un_pre k en ++ tr1)) by (apply trs_app; [apply trs_un_pre|exact T']).
       destruct r1 as [o1|].
-      * destruct (un_fin_l (e_stopped en) k s (un_nst k en) sc tr1 o1 sc tr1 (Some o1) st tr r) as (X1 & X2 & _);
-          [|exact T'|exact H|auto].
+      * destruct (un_fin_l (e_stopped en) k s (un_nst k en) sc (un_pre k en ++ tr1) o1 sc tr1 (Some o1) st tr r)
+          as (X1 & X2 & _); [|apply (proj2 R1); discriminate|exact Tp|exact H|auto].
         intros l ->. split; [reflexivity|]. split; [exact R1|exact T'].
-      * inv H. split; [|exact T']. apply resL_none. rewrite live_un.
+      * inv H. split; [|exact Tp]. apply resL_none. rewrite live_un.
         split; [intros _; rewrite un_nst_env; reflexivity|]. split; [apply un_nst_own|]. apply R1. reflexivity.
     + intros tok cx st st' tr r H HL. destruct st as [|cc sn|ns sc sb|sa sb|vv]; try contradiction HL.
       rewrite live_un in HL. destruct HL as (He & Ho & HL).
@@ -969,7 +1066,7 @@ Proof.
               destruct r1 as [o1|].
               ** destruct (start s (un_env k (n_env (ns_set_own (stopped_ns ns) true))) cx) as [[sc0 tr0] rr0] eqn:H0.
                  destruct (un_fin_l true k s (ns_set_own (stopped_ns ns) true) sc' tr1 o1 sc0 tr0 rr0 st' tr r)
-                   as (X1 & X2 & X3); [|exact T1|exact H|].
+                   as (X1 & X2 & X3); [|apply (proj2 R1); discriminate|exact T1|exact H|].
                  { intros l E. subst k. discriminate Hown. }
                  split; [exact X1|]. split; [exact X2|]. intros id Hin. apply X3. auto.
               ** inv H. split; [|auto]. apply resL_none. rewrite live_un.
@@ -981,7 +1078,7 @@ Proof.
            destruct r1 as [o1|].
            ++ destruct (start s (un_env k (n_env (stopped_ns ns))) cx) as [[sc0 tr0] rr0] eqn:H0.
               destruct (un_fin_l true k s (stopped_ns ns) sc' tr1 o1 sc0 tr0 rr0 st' tr r) as (X1 & X2 & X3);
-                [|exact T1|exact H|].
+                [|apply (proj2 R1); discriminate|exact T1|exact H|].
               { intros l ->. rewrite un_env_repeat in H0. destruct (Ss _ _ _ _ _ H0) as [R0 T0].
                 split; [reflexivity|]. split; [exact R0|]. apply trs_un; [reflexivity|exact T0]. }
               split; [exact X1|]. split; [exact X2|]. intros id Hin. apply X3. auto.
@@ -997,7 +1094,8 @@ Proof.
       destruct r1 as [o1|].
       * injection H as H Hh.
         destruct (start s (un_env k (n_env ns)) cx) as [[sc0 tr0] rr0] eqn:H0.
-        destruct (un_fin_l tok k s ns sc' tr1 o1 sc0 tr0 rr0 st' tr r) as (X1 & X2 & _); [|exact T'|exact H|auto].
+        destruct (un_fin_l tok k s ns sc' tr1 o1 sc0 tr0 rr0 st' tr r) as (X1 & X2 & _);
+          [|apply (proj2 R1); discriminate|exact T'|exact H|auto].
         intros l ->. rewrite un_env_repeat in H0. destruct (Ss _ _ _ _ _ H0) as [R0 T0].
         rewrite (He eq_refl) in R0, T0.
         split; [exact (He eq_refl)|]. split; [exact R0|]. apply trs_un; [reflexivity|exact T0].
@@ -1043,7 +1141,10 @@ Proof.
         destruct (Sa _ _ _ _ _ E1) as [Q T]. apply (trs_bin_a k a b) in T.
         destruct (r0bl_of_l k a b _ _ _ _ _ _ _ _ Sb E2) as [T2 Q2]. auto. }
       split; [|split].
-      * intros en cx st tr r H. rewrite start_bin_seq in H by exact Hk. unfold start_seq in H.
+      * intros en cx st tr r H. rewrite start_bin_seq in H by exact Hk.
+        destruct (sthrows (Bin k a b));
+          [unfold start_thrown in H; injection H as <- <- <-; split; [apply resL_fin|exact (trs_sconn (Bin k a b) _ _ _)]|].
+        unfold start_seq in H.
         destruct (start a en cx) as [[sa tra] ra] eqn:Ha.
         destruct (Sa _ _ _ _ _ Ha) as [R1 T1]. apply (trs_bin_a k a b) in T1.
         destruct ra as [oa|].
@@ -1144,6 +1245,8 @@ Proof.
               rewrite live_seq2 by (auto; exact Hp'). split; [reflexivity|]. apply R1. reflexivity.
     + split; [|split].
       * intros en cx st tr r H. rewrite start_bin_conc in H by exact Hk.
+        destruct (sthrows (Bin k a b));
+          [unfold start_thrown in H; injection H as <- <- <-; split; [apply resL_fin|exact (trs_sconn (Bin k a b) _ _ _)]|].
         eapply start_conc_l; eauto.
       * intros tok cx st st' tr r H HL. destruct st as [|cc sn|ns sa sb|sa sb|vv]; try contradiction HL.
         rewrite stop_bin, Hk in H.
@@ -1448,7 +1551,7 @@ Proof.
     destruct (leafev e (r_st rs) id o cx) as [[[st tr] r] hit] eqn:H. cbv zeta.
     destruct hit.
     - destruct HI as [HD|HL].
-      + rewrite (leafev_done e _ id o cx HD) in H. discriminate H.
+      + destruct (leafev_done e _ id o cx HD) as (st1 & E & _). rewrite E in H. discriminate H.
       + destruct (leafev_l e _ _ _ _ _ _ _ _ _ H HL) as [R T].
         split; [unfold IL; rewrite absorb_st, absorb_stopped, E2; apply resL_IL in R; exact R|].
         split; [rewrite absorb_stopped; exact E2|].
@@ -1466,8 +1569,8 @@ Proof.
     + destruct (stop e (r_st rs) cx) as [[st tr] r] eqn:H.
       rewrite absorb_stopped. simpl r_stopped.
       destruct HI as [HD|HL].
-      * rewrite (stop_done e _ cx HD) in H. inv H.
-        split; [left; rewrite absorb_st; exact HD|]. split; [reflexivity|]. exists []. split; [reflexivity|constructor].
+      * destruct (stop_done e _ cx HD) as (st1 & E & HD1). rewrite E in H. inv H.
+        split; [left; rewrite absorb_st; exact HD1|]. split; [reflexivity|]. exists []. split; [reflexivity|constructor].
       * destruct (stop_l e _ _ _ _ _ _ H HL) as (R & T & _).
         split; [unfold IL; rewrite absorb_st, absorb_stopped; apply resL_IL in R; exact R|].
         split; [reflexivity|].
@@ -1486,7 +1589,11 @@ Lemma run_start_l e pre :
   IL e (run_start e pre) /\ r_stopped (run_start e pre) = pre /\
   Forall (liftx (sok e pre)) (r_tr (run_start e pre)).
 Proof.
-  unfold run_start. destruct (start e (root_env pre) 0) as [[st tr] r] eqn:H.
+  unfold run_start. destruct (cthrows e).
+  { split; [left; exact I|]. split; [reflexivity|]. simpl. apply Forall_app. split; [|repeat constructor].
+    pose proof (conn_aev e 0) as Hc. induction Hc as [|t l Ht _ IH]; simpl; constructor; auto.
+    destruct t; simpl in *; tauto. }
+  destruct (start e (root_env pre) 0) as [[st tr] r] eqn:H.
   destruct (start_l e _ _ _ _ _ H) as [R T]. simpl in R, T.
   split; [unfold IL; rewrite absorb_st, absorb_stopped; apply resL_IL in R; exact R|].
   split; [apply absorb_stopped|].
@@ -1602,7 +1709,8 @@ Theorem run_stop_reaches e pre s1 cx st' tr r :
   (r <> None -> done_st st').
 Proof.
   intros H. destruct (run_live e pre s1) as [HD|HL].
-  - rewrite (stop_done e _ cx HD) in H. inv H. unfold reach. rewrite lv_inert by exact HD.
+  - destruct (stop_done e _ cx HD) as (st1 & E & HD1). rewrite E in H. inv H.
+    unfold reach. rewrite !lv_inert by assumption.
     split; [intros id []|]. split; [intros id []|congruence].
   - destruct (stop_reaches e _ _ _ _ _ _ HL H) as (A & B & C & D). auto.
 Qed.
@@ -1672,17 +1780,18 @@ Proof.
 Qed.
 
 Lemma un_fin_d d k s ns sc tr o sc0 tr0 rr0 st tr' r :
-  dep_is ns d -> dwf (un_dep k d) s sc0 ->
+  dep_is ns d -> dwf (un_dep k d) s sc -> dwf (un_dep k d) s sc0 ->
   un_fin k s ns sc tr o (sc0, tr0, rr0) = (st, tr', r) -> dwf d (Un k s) st.
 Proof.
-  intros Hn Hq0 H. unfold un_fin in H.
+  intros Hn Hqc Hq0 H. unfold un_fin in H.
   destruct k; try (eapply un_done_d; eassumption).
-  rewrite rep_done_eq in H. destruct (is_val o); [|inv H; auto with calcd].
-  destruct (rep_loop s (sc0, tr0, rr0) (skipn (n_iter ns) l) (n_iter ns)) as [i' [[sc' tr2] r2]] eqn:Hr.
-  destruct (rep_loop_d _ _ _ _ _ Hq0 _ _ _ _ _ _ Hr) as (Q & N).
-  destruct r2; injection H as <- <- <-.
-  - apply dwf_inert. apply N. discriminate.
-  - rewrite dwf_un. split; [exact Hn|auto].
+  - rewrite rep_done_eq in H. destruct (is_val o); [|inv H; auto with calcd].
+    destruct (rep_loop s (sc0, tr0, rr0) (skipn (n_iter ns) l) (n_iter ns)) as [i' [[sc' tr2] r2]] eqn:Hr.
+    destruct (rep_loop_d _ _ _ _ _ Hq0 _ _ _ _ _ _ Hr) as (Q & N).
+    destruct r2; injection H as <- <- <-.
+    + apply dwf_inert. apply N. discriminate.
+    + rewrite dwf_un. split; [exact Hn|auto].
+  - injection H as <- <- <-. rewrite dwf_un. auto.
 Qed.
 
 Lemma seq_pass_d d k a b sa tr o st tr' r : seq_pass k a sa tr o = (st, tr', r) -> dwf d (Bin k a b) st.
@@ -1972,7 +2081,7 @@ Qed.
 
 Lemma all_d e : StartD e /\ StopD e /\ LeafevD e.
 Proof.
-  induction e as [v|x| |n|id|id|id c|id lvl| |k s IH|k a IHa b IHb];
+  induction e as [v|x| |n|id|id|id c|id lvl| |idc|k s IH|k a IHa b IHb];
     try (split; [|split];
          [intros en cx st tr r H; destruct st; exact I
          |intros d cx st st' tr r H Hq; destruct st'; exact I
@@ -1980,10 +2089,11 @@ Proof.
   - (* Un *)
     destruct IH as (Ss & Ps & Ls). split; [|split].
     + intros en cx st tr r H. rewrite start_un in H.
+      destruct (sthrows (Un k s)); [unfold start_thrown in H; injection H as <- <- <-; apply dwf_fin|].
       destruct (start s (un_env k en) cx) as [[sc tr1] r1] eqn:Hs.
       pose proof (Ss _ _ _ _ _ Hs) as Hq. rewrite ss_un in Hq.
       destruct r1 as [o1|].
-      * eapply un_fin_d; [|exact Hq|exact H]. unfold dep_is. destruct k; reflexivity.
+      * eapply un_fin_d; [|exact Hq|exact Hq|exact H]. unfold dep_is. destruct k; reflexivity.
       * inv H. rewrite dwf_un. split; [unfold dep_is; destruct k; reflexivity|exact Hq].
     + intros d cx st st' tr r H Hq.
       destruct st as [|c sn|ns sc sb|sa sb|vv];
@@ -2006,7 +2116,7 @@ Proof.
         destruct r1 as [o1|].
         -- destruct (start s (un_env k (n_env ns2)) cx) as [[sc0 tr0] rr0] eqn:H0.
            pose proof (Ss _ _ _ _ _ H0) as Hq0. rewrite ss_un in Hq0. rewrite (Hn2 : e_ss (n_env ns2) = d) in Hq0.
-           eapply un_fin_d; [exact Hn2|exact Hq0|exact H].
+           eapply un_fin_d; [exact Hn2|exact Hq'|exact Hq0|exact H].
         -- inv H. rewrite dwf_un. auto.
     + intros d cx st i o st' tr r hit H Hq.
       destruct st as [|c sn|ns sc sb|sa sb|vv];
@@ -2023,7 +2133,7 @@ Proof.
       * injection H as H Hh.
         destruct (start s (un_env k (n_env ns)) cx) as [[sc0 tr0] rr0] eqn:H0.
         pose proof (Ss _ _ _ _ _ H0) as Hq0. rewrite ss_un in Hq0. rewrite (Hn : e_ss (n_env ns) = d) in Hq0.
-        eapply un_fin_d; [exact Hn|exact Hq0|exact H].
+        eapply un_fin_d; [exact Hn|exact Hq'|exact Hq0|exact H].
       * destruct (un_own k && fired (e_ss (n_env ns)) tr1)%bool eqn:Hf.
         2:{ inv H. rewrite dwf_un. auto. }
         unfold fired_body in H.
@@ -2052,7 +2162,9 @@ Proof.
       { intros en cx sa0 tra0 ra0 sbl trbl rbl E1 E2. split; [exact (Sa _ _ _ _ _ E1)|].
         exact (r0bl_of_d _ _ _ _ _ _ _ Sb E2). }
       split; [|split].
-      * intros en cx st tr r H. rewrite start_bin_seq in H by exact Hk. unfold start_seq in H.
+      * intros en cx st tr r H. rewrite start_bin_seq in H by exact Hk.
+        destruct (sthrows (Bin k a b)); [unfold start_thrown in H; injection H as <- <- <-; apply dwf_fin|].
+        unfold start_seq in H.
         destruct (start a en cx) as [[sa tra] ra] eqn:Ha.
         pose proof (Sa _ _ _ _ _ Ha) as Hqa.
         destruct ra as [oa|].
@@ -2142,6 +2254,7 @@ Proof.
            ++ inv H. rewrite dwf_bin. auto.
     + split; [|split].
       * intros en cx st tr r H. rewrite start_bin_conc in H by exact Hk.
+        destruct (sthrows (Bin k a b)); [unfold start_thrown in H; injection H as <- <- <-; apply dwf_fin|].
         eapply start_conc_d; [exact Sa|exact Pa|exact Sb|exact H].
       * intros d cx st st' tr r H Hq.
         destruct st as [|c sn|ns sa sb|sa sb|vv];
@@ -2173,7 +2286,8 @@ Qed.
 Theorem run_depth e pre script : dwf 0 e (r_st (run e pre script)).
 Proof.
   apply (run_invariant e pre (fun rs => dwf 0 e (r_st rs))).
-  - unfold run_start. destruct (start e (root_env pre) 0) as [[st tr] r] eqn:H.
+  - unfold run_start. destruct (cthrows e); [apply dwf_fin|].
+    destruct (start e (root_env pre) 0) as [[st tr] r] eqn:H.
     rewrite absorb_st. exact (proj1 (all_d e) _ _ _ _ _ H).
   - intros rs ev HI. unfold run_ev. destruct ev as [id o cx|cx|c].
     + destruct (leafev e (r_st rs) id o cx) as [[[st tr] r] hit] eqn:H. destruct hit.
@@ -2250,8 +2364,9 @@ Theorem wsa_via_run_result id c s pre s1 ns sa sb i o cx st tr oc hit :
   leafev (wsa_via id c s) (ONode ns sa sb) i o cx = (st, tr, Some oc, hit) ->
   i = id /\ ph ns <> PFirst /\ (saved ns = Some oc \/ (saved ns = None /\ oc = OVal 0%Z)).
 Proof.
-  intros E H. destruct (run_live (wsa_via id c s) pre s1) as [HD|HL]; rewrite E in *; [contradiction HD|].
-  eapply wsa_via_result; eassumption.
+  intros E H. destruct (run_live (wsa_via id c s) pre s1) as [HD|HL]; rewrite E in *.
+  - destruct (leafev_done (wsa_via id c s) _ i o cx HD) as (st1 & E1 & _). rewrite E1 in H. discriminate H.
+  - eapply wsa_via_result; eassumption.
 Qed.
 
 (* ================================================================================================ *)
